@@ -4,7 +4,9 @@ interpreter's (environment data, as in spec/Env.tla), not yarl's copies of them.
 import urllib.parse as up
 
 T = lambda s: [ord(c) for c in s]  # noqa: E731
-REFS = ["../g", "g", "?y", "#s", "//h2/p", "/g", "", "./", "g/../h", "../../../g", "g;x=1/./y", "http:g", "x:y"]
+REFS = ["../g", "g", "?y", "#s", "//h2/p", "/g", "", "./", "g/../h", "../../../g", "g;x=1/./y", "http:g", "x:y",
+        # references with a path that resolves to the base's OWN path (the base query must still go)
+        "c", "./c", "/a/b/c", "../b/c", ".", "/a/b", "b"]
 
 
 def gen(params):
